@@ -33,13 +33,14 @@ def encConn (c : Conn) : Val := Val.ofNats [c.master, c.slave, c.midx, c.sidx, c
 
 def has (what : List String) (w : String) : Bool := what.contains w
 
-/-- `[catalogue plans = plansOfObjs, [[ [owned, owner position, orientation|None] per face ] per patch]]`
+/-- `[catalogue plans = plansOfObjs, starOK, wellOrderedB && noJunkB, [[ [owned, owner position, orientation|None] per face ] per patch]]`
     (the second component is read off `plansOfObjs`, the history-level statement the theorems use). -/
 def encPlans (sm : MP.SplineModel) (objs : List MP.Obj) : Val :=
   let spec := plansOfObjs objs
   let cat := sm.plans
   let agree := spec.length == cat.length && (List.zip spec cat).all fun ab => ab.1.same ab.2
-  .list [Val.ofBool agree, .list (spec.map fun p => .list (p.faces.map fun f =>
+  .list [Val.ofBool agree, Val.ofBool (starOK spec (geomArrays objs)), Val.ofBool (wellOrderedB spec && noJunkB spec),
+    .list (spec.map fun p => .list (p.faces.map fun f =>
     .list [Val.ofBool f.owned, Val.ofNat ((f.src.map (·.top)).getD 0),
       if f.owned then .str "None" else match f.ori with
         | .ok o => encOri o
